@@ -173,6 +173,12 @@ func (e *posEnc) listParts(v gv) (baseEmpty *Term, base *gObj, app []gv, ok bool
 			return tTrue, nil, x.App, true
 		}
 		b := x.Base
+		if d, okf := e.r.facts[fmt.Sprintf("lempty:%d", b.ID)]; okf {
+			if d {
+				return tTrue, nil, x.App, true
+			}
+			return tFalse, b, x.App, true
+		}
 		if d, okf := e.r.facts[fmt.Sprintf("lnil:%d", b.ID)]; okf && d {
 			return tTrue, nil, x.App, true
 		} else if okf && !d && !b.LEmpty {
@@ -206,15 +212,33 @@ func (e *posEnc) listSE(v gv) (s, en *Term) {
 	} else {
 		firstApp, lastApp = minus1, minus1
 	}
-	if b == nil {
-		return firstApp, lastApp
+	var pre []gv
+	if l, isL := v.(*gList); isL {
+		pre = l.Pre
 	}
-	bs, ben := e.listBaseSE(b)
-	s = tIte(be, firstApp, bs)
-	if len(app) > 0 {
-		en = lastApp
+	if b == nil {
+		s, en = firstApp, lastApp
 	} else {
-		en = tIte(be, minus1, ben)
+		bs, ben := e.listBaseSE(b)
+		s = tIte(be, firstApp, bs)
+		if len(app) > 0 {
+			en = lastApp
+		} else {
+			en = tIte(be, minus1, ben)
+		}
+	}
+	if len(pre) > 0 {
+		ps, _ := e.nodeSE(pre[0])
+		_, pe := e.nodeSE(pre[len(pre)-1])
+		s = ps
+		if len(app) == 0 {
+			if b == nil {
+				en = pe
+			} else {
+				_, ben := e.listBaseSE(b)
+				en = tIte(be, pe, ben)
+			}
+		}
 	}
 	return s, en
 }
@@ -414,6 +438,10 @@ func (g *gramCtx) posObligations(c *CheckCtx, gp *gramParser, rule *yRule, r *gR
 	for _, s := range g.gramFlag(gp, "provisional-end") {
 		provEnd[s] = true
 	}
+	provStart := map[string]bool{}
+	for _, s := range g.gramFlag(gp, "provisional-start") {
+		provStart[s] = true
+	}
 	emptySlotTypes := map[string]bool{}
 	for _, s := range g.gramFlag(gp, "empty-slot-types") {
 		emptySlotTypes[s] = true
@@ -438,6 +466,9 @@ func (g *gramCtx) posObligations(c *CheckCtx, gp *gramParser, rule *yRule, r *gR
 				}
 			}
 		case *gList:
+			for _, e := range x.Pre {
+				walk(e)
+			}
 			for _, e := range x.App {
 				walk(e)
 			}
@@ -522,7 +553,11 @@ func (g *gramCtx) posObligations(c *CheckCtx, gp *gramParser, rule *yRule, r *gR
 			if io.Dollar > 0 && provEnd[rule.RHS[io.Dollar-1]] {
 				endEq = tTrue // the end of this carrier's Position is not final yet (named in the contract file)
 			}
-			enc.facts = append(enc.facts, tEq(enc.ic("ns", io), es0), endEq)
+			startEq := tEq(enc.ic("ns", io), es0)
+			if io.ListElemOf > 0 && provStart[rule.RHS[io.ListElemOf-1]] {
+				startEq = tTrue // partial chain node: the start is provisional (named in the contract file)
+			}
+			enc.facts = append(enc.facts, startEq, endEq)
 			enc.facts = append(enc.facts, sub.facts...)
 		}
 		es, ee, endIsStmtList, descr := g.expectedSpan(gp, enc, o, lay, true, stmtLists)
@@ -629,7 +664,19 @@ func (g *gramCtx) posObligations(c *CheckCtx, gp *gramParser, rule *yRule, r *gR
 			endOK = tOr(endOK, tEq(ae, minus1))
 		}
 		endGoal := tImp(assume, endOK)
-		sc.AddObligation(&Obligation{Name: base + "/start", Class: "pos", Props: []string{c.Prop}, Goal: startGoal, Site: ruleSite(gp, rule), Note: note, Inputs: goalInputs(startGoal)})
+		skipStart := false
+		if kind == "list" && provStart[rule.LHS] {
+			if l, isL := out.(*gList); isL {
+				for _, el := range append(append([]gv{}, l.Pre...), l.App...) {
+					if rf, isRef := el.(gRef); isRef && rf.Obj == o {
+						skipStart = true // element of a list of partial chain nodes
+					}
+				}
+			}
+		}
+		if !skipStart {
+			sc.AddObligation(&Obligation{Name: base + "/start", Class: "pos", Props: []string{c.Prop}, Goal: startGoal, Site: ruleSite(gp, rule), Note: note, Inputs: goalInputs(startGoal)})
+		}
 		if rf, isRef := out.(gRef); isRef && rf.Obj == o && provEnd[rule.LHS] {
 			continue // provisional end: closed by the rule that consumes this carrier
 		}
@@ -670,6 +717,11 @@ func (g *gramCtx) expectedSpan(gp *gramParser, enc *posEnc, o *gObj, lay []yItem
 			v := y.fieldVal(o, it.Slot)
 			if l, ok := v.(*gList); ok {
 				be, b, app, _ := enc.listParts(l)
+				for _, el := range l.Pre {
+					h, s1, e1 := enc.nodePos(el)
+					spans = append(spans, span{h, s1, e1})
+					descr = append(descr, "node("+describeG(el)+")")
+				}
 				if b != nil {
 					s1, e1 := enc.listBaseSE(b)
 					spans = append(spans, span{tNot(be), s1, e1})
